@@ -136,3 +136,44 @@ Definition spec_at (t : tab) (N : nat) (V s : Z) (hist : list (list Z)) (B : nat
 Definition spec_full (t : tab) (N : nat) (V s : Z) (hist : list (list Z)) (B : nat)
   : list (list (list val)) :=
   map (fun i => spec_at t N V s hist B (repeat i B)) (seq 0 (S (length hist))).
+
+(* ---------- (d) ARPA files ------------------------------------------------------------------------ *)
+
+(* one listed entry: log-probability, the n-gram (token ids), and, if a back-off weight is
+   written after the words, that field's accidental id under token2id and its value *)
+Record aentry := mkEntry { ae_logp : Z; ae_key : list Z; ae_bo : option (option Z * Z) }.
+
+(* [wf x] = the float value of word x when the word itself happens to look like a number *)
+Definition entry_line (wf : Z -> option Z) (e : aentry) : aline :=
+  LEntry (ae_logp e)
+         (map (fun x => Field (Some x) (wf x)) (ae_key e)
+          ++ match ae_bo e with Some (oi, bo) => [Field oi (Some bo)] | None => [] end).
+
+(* what the listed entry means: the back-off weight defaults to 0 and is not stored for the
+   highest order *)
+Definition entry_value (N n : nat) (e : aentry) : list Z * (val * val) :=
+  (ae_key e,
+   (Fin (ae_logp e),
+    if Nat.eqb n N then Fin 0
+    else Fin (match ae_bo e with Some (_, bo) => bo | None => 0 end))).
+
+Definition section_ok (N n : nat) (es : list aentry) : Prop :=
+  Forall (fun e => length (ae_key e) = n /\ (n = N -> ae_bo e = None)) es /\
+  NoDup (map ae_key es).
+
+Definition nth_sec (secs : list (list aentry)) (n : nat) : list aentry := nth (n - 1) secs [].
+
+(* the non-blank lines of a well-formed file: anything without a \data\ line, \data\, the
+   counts, the sections in increasing order, \end\, anything *)
+Definition arpa_lines (wf : Z -> option Z) (pre post : list aline) (secs : list (list aentry))
+  : list aline :=
+  let N := length secs in
+  pre ++ LData :: map (fun n => LCount n (length (nth_sec secs n))) (seq 1 N)
+      ++ flat_map (fun n => LHeader n :: map (entry_line wf) (nth_sec secs n)) (seq 1 N)
+      ++ LEnd :: post.
+
+Definition arpa_dicts (secs : list (list aentry)) : list dict :=
+  let N := length secs in
+  map (fun n => map (entry_value N n) (nth_sec secs n)) (seq 1 N).
+
+Definition nonblank (l : aline) : bool := match l with LBlank => false | _ => true end.
